@@ -27,7 +27,6 @@
    timer when the ANNOUNCE TABLE becomes non-empty; [fx = false] is the pinned tree, which
    looks at f.fetching.                                                                   *)
 From Coq Require Import NArith ZArith List Bool.
-From LV Require Import lib.ZPlain.
 Import ListNotations.
 
 Record cfg := mkCfg {
@@ -143,9 +142,9 @@ Definition reschedule (c : cfg) (st : state) (now : Z) (scan : list N) : state :
   | [] => st
   | _ =>
     let examined := firstn (S (c_max_checks c)) (reorder scan (fetching st)) in
-    let earliest := fold_left (fun e x => if zltb (snd (snd x)) e then snd (snd x) else e) examined now in
-    let d := zmax (zsub (c_arrive c) (zsub now earliest)) (c_arrive8 c) in
-    mkSt (ann st) (fetching st) (mkT (Some (zadd now d)) (t_chan (tm st)))
+    let earliest := fold_left (fun e x => if Z.ltb (snd (snd x)) e then snd (snd x) else e) examined now in
+    let d := Z.max (Z.sub (c_arrive c) (Z.sub now earliest)) (c_arrive8 c) in
+    mkSt (ann st) (fetching st) (mkT (Some (Z.add now d)) (t_chan (tm st)))
   end.
 
 (* one iteration of the loop over notification.ids in processNotification *)
@@ -199,10 +198,10 @@ Definition pass_one (c : cfg) (now : Z) (choice : list (N * nat))
   | Some [] => (mkSt l1 (fetching st) (tm st), rq)
   | Some (oldest :: more) =>
     let st1 := mkSt l1 (fetching st) (tm st) in
-    if zltb (c_forget c) (zsub now (a_time oldest)) then (forget id st1, rq)
+    if Z.ltb (c_forget c) (Z.sub now (a_time oldest)) then (forget id st1, rq)
     else
       let stale := match f_find id (fetching st1) with
-                   | Some (_, ft) => zltb (zsub (c_arrive c) (c_slack c)) (zsub now ft)
+                   | Some (_, ft) => Z.ltb (Z.sub (c_arrive c) (c_slack c)) (Z.sub now ft)
                    | None => true       (* zero fetchingTime: time.Since is huge *)
                    end in
       if stale then
@@ -226,7 +225,7 @@ Definition step (fx : bool) (c : cfg) (st : state) (now : Z) (ev : event) : stat
   | EReceived ids => (fold_left (fun s id => forget id s) ids st, [])
   | ETick =>
     match t_armed (tm st) with
-    | Some due => if zleb due now then (mkSt (ann st) (fetching st) (mkT None true), []) else (st, [])
+    | Some due => if Z.leb due now then (mkSt (ann st) (fetching st) (mkT None true), []) else (st, [])
     | None => (st, [])
     end
   | ETimer interested choice scan =>
@@ -253,10 +252,10 @@ Definition pass_margin (c : cfg) (st : state) (now : Z) (interested : list N) : 
     | Some e =>
       match e_val e with
       | oldest :: _ =>
-        let d1 := zsub (zsub now (a_time oldest)) (c_forget c) in
-        let m1 := zmin m (zmax d1 (zopp d1)) in
+        let d1 := Z.sub (Z.sub now (a_time oldest)) (c_forget c) in
+        let m1 := Z.min m (Z.max d1 (Z.opp d1)) in
         match f_find id (fetching st) with
-        | Some (_, ft) => let d2 := zsub (zsub now ft) (zsub (c_arrive c) (c_slack c)) in zmin m1 (zmax d2 (zopp d2))
+        | Some (_, ft) => let d2 := Z.sub (Z.sub now ft) (Z.sub (c_arrive c) (c_slack c)) in Z.min m1 (Z.max d2 (Z.opp d2))
         | None => m1
         end
       | [] => m
